@@ -22,7 +22,15 @@ func c01PipelineModel(p *core.Program) *pbfModel {
 		return m
 	}
 	m := getPBFModel(p)
-	if len(m.errs) > 0 {
+	hasReader := false
+	for _, g := range m.gos {
+		if g.role == "reader" {
+			hasReader = true
+		}
+	}
+	if len(m.errs) > 0 || !hasReader {
+		// the shared model could not be built, or it found no goroutine that reads the input (it looks for one
+		// particular read primitive): derive the roles here
 		if fb := c01DeriveRoles(p); fb != nil {
 			m = fb
 		}
@@ -35,7 +43,7 @@ func c01PipelineModel(p *core.Program) *pbfModel {
 // overall structure (one spawner method with go statements, a worker started in a loop, a reader that reaches
 // io.ReadFull, a per-worker decoder allocated in the worker loop).
 func c01DeriveRoles(p *core.Program) *pbfModel {
-	m := &pbfModel{p: p, units: map[ast.Node]*unit{}}
+	m := &pbfModel{p: p, units: map[ast.Node]*unit{}, funcs: map[*types.Func]*FuncInfo{}, byDecl: map[*types.Func]*unit{}, goCalls: map[*ast.CallExpr]*goSite{}}
 	m.pk = p.Pkg("osmpbf")
 	if m.pk == nil {
 		return nil
@@ -45,6 +53,9 @@ func c01DeriveRoles(p *core.Program) *pbfModel {
 	if m.scannerT == nil {
 		return nil
 	}
+	// the functions holding go statements; the spawner is the one the others are reached from (the go statements may
+	// be spread over helpers the spawner calls, e.g. one helper starting the workers)
+	var hosts []*FuncInfo
 	for _, fi := range allFuncs(m.pk) {
 		n := 0
 		ast.Inspect(fi.Decl.Body, func(x ast.Node) bool {
@@ -54,14 +65,41 @@ func c01DeriveRoles(p *core.Program) *pbfModel {
 			return true
 		})
 		if n > 0 {
+			hosts = append(hosts, fi)
+		}
+	}
+	for _, a := range hosts {
+		root := true
+		for _, b := range hosts {
+			if a == b {
+				continue
+			}
+			for _, g := range c01Reachable(p, b) {
+				if g.Obj == a.Obj {
+					root = false
+				}
+			}
+		}
+		if root {
 			if m.start != nil {
 				return nil
 			}
-			m.start = fi
+			m.start = a
 		}
 	}
 	if m.start == nil {
 		return nil
+	}
+	for _, hst := range hosts {
+		reached := false
+		for _, g := range c01Reachable(p, m.start) {
+			if g.Obj == hst.Obj {
+				reached = true
+			}
+		}
+		if !reached {
+			return nil
+		}
 	}
 	if recv := m.start.Obj.Type().(*types.Signature).Recv(); recv != nil {
 		t := recv.Type()
@@ -74,44 +112,69 @@ func c01DeriveRoles(p *core.Program) *pbfModel {
 		return nil
 	}
 	for _, fi := range allFuncs(m.pk) {
-		m.units[fi.Decl] = &unit{node: fi.Decl, body: fi.Decl.Body, fi: fi, name: fi.Name(), roles: map[string]bool{}, initPos: map[token.Pos]bool{}}
+		u := &unit{node: fi.Decl, body: fi.Decl.Body, fi: fi, name: fi.Name(), roles: map[string]bool{}, initPos: map[token.Pos]bool{}}
+		m.units[fi.Decl] = u
+		m.funcs[fi.Obj] = fi
+		m.byDecl[fi.Obj] = u
 	}
-	par := parentsOf(p, m.start)
+	isLoop := func(n ast.Node) bool {
+		switch n.(type) {
+		case *ast.ForStmt, *ast.RangeStmt:
+			return true
+		}
+		return false
+	}
 	type site struct {
 		gs     *ast.GoStmt
 		u      *unit
 		inLoop bool
+		scope  ast.Node // where the goroutine's private values are built: the enclosing loop, or the helper's body
 	}
 	var sites []site
 	ok := true
-	ast.Inspect(m.start.Decl.Body, func(x ast.Node) bool {
-		gs, isGo := x.(*ast.GoStmt)
-		if !isGo {
-			return true
+	parStart := parentsOf(p, m.start)
+	for _, hst := range hosts {
+		hst := hst
+		par := parentsOf(p, hst)
+		// a helper that is called from a loop of the spawner starts its goroutines once per iteration
+		calledInLoop := false
+		if hst != m.start {
+			ast.Inspect(m.start.Decl.Body, func(x ast.Node) bool {
+				if call, isCall := x.(*ast.CallExpr); isCall && callee(m.info, call) == hst.Obj {
+					if enclosing(parStart, call, isLoop) != nil {
+						calledInLoop = true
+					}
+				}
+				return true
+			})
 		}
-		var u *unit
-		if lit, isLit := gs.Call.Fun.(*ast.FuncLit); isLit {
-			u = &unit{node: lit, body: lit.Body, fi: m.start, roles: map[string]bool{}, initPos: map[token.Pos]bool{}}
-			m.units[lit] = u
-			m.gos = append(m.gos, &goSite{stmt: gs, lit: lit})
-		} else if tf := c01Callee(m.pk, gs.Call); tf != nil {
-			u = m.units[tf.Decl]
-			m.gos = append(m.gos, &goSite{stmt: gs})
-		}
-		if u == nil {
-			ok = false
-			return true
-		}
-		inLoop := enclosing(par, gs, func(n ast.Node) bool {
-			switch n.(type) {
-			case *ast.ForStmt, *ast.RangeStmt:
+		ast.Inspect(hst.Decl.Body, func(x ast.Node) bool {
+			gs, isGo := x.(*ast.GoStmt)
+			if !isGo {
 				return true
 			}
-			return false
-		}) != nil
-		sites = append(sites, site{gs, u, inLoop})
-		return true
-	})
+			var u *unit
+			if lit, isLit := gs.Call.Fun.(*ast.FuncLit); isLit {
+				u = &unit{node: lit, body: lit.Body, fi: hst, roles: map[string]bool{}, initPos: map[token.Pos]bool{}}
+				m.units[lit] = u
+				m.gos = append(m.gos, &goSite{stmt: gs, lit: lit})
+			} else if tf := c01Callee(m.pk, gs.Call); tf != nil {
+				u = m.units[tf.Decl]
+				m.gos = append(m.gos, &goSite{stmt: gs})
+			}
+			if u == nil {
+				ok = false
+				return true
+			}
+			loop := enclosing(par, gs, isLoop)
+			var scope ast.Node = loop
+			if loop == nil && calledInLoop {
+				scope = hst.Decl.Body
+			}
+			sites = append(sites, site{gs, u, loop != nil || calledInLoop, scope})
+			return true
+		})
+	}
 	if !ok || len(sites) == 0 {
 		return nil
 	}
@@ -134,14 +197,8 @@ func c01DeriveRoles(p *core.Program) *pbfModel {
 		case s.inLoop:
 			role = "worker"
 			nworker++
-			workerLoop = enclosing(par, s.gs, func(n ast.Node) bool {
-				switch n.(type) {
-				case *ast.ForStmt, *ast.RangeStmt:
-					return true
-				}
-				return false
-			})
-		case m.unitReaches(s.u, func(x *unit) bool { return m.unitCalls(x, "io", "ReadFull") }):
+			workerLoop = s.scope
+		case m.unitReaches(s.u, func(x *unit) bool { return c01UnitReadsStream(m, x) }):
 			role = "reader"
 			nreader++
 		}
@@ -173,7 +230,19 @@ func c01DeriveRoles(p *core.Program) *pbfModel {
 		if cl, isCl := x.(*ast.CompositeLit); isCl {
 			if nt, isNamed := m.info.TypeOf(cl).(*types.Named); isNamed && nt.Obj().Pkg() == m.pk.Types && nt.NumMethods() > 0 {
 				if _, isStruct := nt.Underlying().(*types.Struct); isStruct {
-					m.ddT = nt
+					// among several (a worker struct wrapping the decoder), the one with a method that takes a blob
+					takesBlob := false
+					for i := 0; i < nt.NumMethods(); i++ {
+						ps := nt.Method(i).Type().(*types.Signature).Params()
+						for j := 0; j < ps.Len(); j++ {
+							if c01IsGenerated(ps.At(j).Type(), "Blob") {
+								takesBlob = true
+							}
+						}
+					}
+					if m.ddT == nil || takesBlob {
+						m.ddT = nt
+					}
 				}
 			}
 		}
@@ -183,4 +252,42 @@ func c01DeriveRoles(p *core.Program) *pbfModel {
 		return nil
 	}
 	return m
+}
+
+// c01IsStreamRead: call reads from an io.Reader: a function of package io whose first parameter is an io.Reader
+// (ReadFull, ReadAtLeast, ReadAll, Copy, CopyN ...), or the Read method called on a value of an interface type.
+func c01IsStreamRead(info *types.Info, call *ast.CallExpr) bool {
+	fn := callee(info, call)
+	if fn == nil {
+		return false
+	}
+	sig := fn.Type().(*types.Signature)
+	if fn.Pkg() != nil && fn.Pkg().Path() == "io" && sig.Recv() == nil {
+		for i := 0; i < sig.Params().Len(); i++ {
+			if namedPath(sig.Params().At(i).Type()) == "io.Reader" {
+				return true
+			}
+		}
+		return false
+	}
+	if sig.Recv() != nil && fn.Name() == "Read" {
+		if sel, ok := ast.Unparen(call.Fun).(*ast.SelectorExpr); ok {
+			if _, isIface := info.TypeOf(sel.X).Underlying().(*types.Interface); isIface {
+				return true
+			}
+		}
+	}
+	return false
+}
+
+// c01UnitReadsStream: the unit itself reads from an io.Reader.
+func c01UnitReadsStream(m *pbfModel, u *unit) bool {
+	found := false
+	m.walkUnit(u, func(n ast.Node) bool {
+		if call, ok := n.(*ast.CallExpr); ok && c01IsStreamRead(m.info, call) {
+			found = true
+		}
+		return !found
+	})
+	return found
 }
